@@ -75,7 +75,8 @@ InDomain == \A n \in DOMAIN asg : \A s \in {"sfile", "user"} : asg[n][s] = "bad"
 IdealExcludeSources == SelectSeq(<<"cli", "sfile", "user">>, LAMBDA s : Sets("input.exclude_filters", s))
 ImplExcludeSources == SelectSeq(stack, LAMBDA s : s # "defaults" /\ Sets("input.exclude_filters", s))
 \* a relative output directory: against cwd, or against the directory of the file that sets it iff relative_to_config
-OutBase(src) == IF src = "none" THEN "none" ELSE IF rtc # "none" /\ src \in {"sfile", "user"} THEN "dir-of-" \o src ELSE IF rtc # "none" THEN "undetermined" ELSE "cwd"
+\* (a value from the command line is set by no configuration file: the current directory, whatever relative_to_config says)
+OutBase(src) == IF src = "none" THEN "none" ELSE IF rtc # "none" /\ src \in {"sfile", "user"} THEN "dir-of-" \o src ELSE "cwd"
 
 C16_Precedence == Done /\ result.status = "ok" => \A n \in DOMAIN asg : result.eff[n] = IdealSource(n)
 C16_WrongTypeRejected == Done => (result.status = "rejected") = IdealRejected
